@@ -716,6 +716,12 @@ func (g *Gen) Next() Op {
 		}
 	case "SearchFacts":
 		op.Val, op.Inh = g.Pattern(), g.P.Parents && g.R.Intn(2) == 0
+		if g.P.Name == "guardinh" {
+			op.Inh = g.R.Intn(5) > 0
+			if g.R.Intn(3) > 0 {
+				op.Loc = g.P.Locs[0] // at the child
+			}
+		}
 	case "AddRule":
 		op.Id, op.Val = id, g.Rule()
 		if g.R.Intn(8) == 0 {
